@@ -31,6 +31,12 @@ ROOT = Path(__file__).resolve().parent.parent
 LEAN_DIR = ROOT / "lean"
 WORK = ROOT / ".work"
 EVIDENCE = ROOT / "evidence"
+if os.environ.get("VERIF_REPO"):
+    # developer-only mutation experiment against a scratch checkout: keep its scratch files and its (meaningless)
+    # evidence apart from those of the registered checks, which always run against /repo itself
+    _tag = hashlib.sha1(os.environ["VERIF_REPO"].encode()).hexdigest()[:10]
+    WORK = ROOT / ".work" / f"mut-{_tag}"
+    EVIDENCE = WORK / "evidence"
 CORPUS = ROOT / "corpus"
 KNOWN_FILE = ROOT / "known_findings.json"
 STD_AXIOMS = {"propext", "Classical.choice", "Quot.sound"}
